@@ -407,6 +407,32 @@ Fixpoint final_state (c : cfg) (st : lm_state) (ts : list task) : lm_state :=
   | t :: r => final_state c (fst (get_launch_cmds c st t)) r
   end.
 
+(* ResourceManager.find_launcher: the launchers are asked in launch order,
+   the first whose can_launch answers True is taken (an exception raised by a
+   can_launch propagates); then the executor asks that launcher for the
+   command.  Node identifiers stand for node NAMES: two identifiers are equal
+   iff the names are the same strings (the harness uses injective name tables
+   that contain names which are prefixes of one another, short and fully
+   qualified names, and 'localhost' = 0). *)
+Fixpoint find_from (i : nat) (cs : list cfg) (t : task) : err + option (nat * cfg) :=
+  match cs with
+  | [] => inr None
+  | c :: r =>
+      match can_launch c t with
+      | inl e => inl e
+      | inr true => inr (Some (i, c))
+      | inr false => find_from (S i) r t
+      end
+  end.
+Definition find_launcher (cs : list cfg) (t : task) : err + option (nat * cfg) := find_from 0 cs t.
+
+Definition select_obs (cs : list cfg) (t : task) : (err + option nat) * option outcome :=
+  match find_launcher cs t with
+  | inl e => (inl e, None)
+  | inr None => (inr None, None)
+  | inr (Some (i, c)) => (inr (Some i), Some (snd (get_launch_cmds c [] t)))
+  end.
+
 (* ================================================================== *)
 (* Denotation of a command (trusted: launcher CLI semantics)           *)
 (* ================================================================== *)
